@@ -146,10 +146,13 @@ def run_main(main):
         return main()
     except Exception as e:
         tb = traceback.extract_tb(e.__traceback__)
-        inner = tb[-1].filename if tb else ''
-        site_pkgs = '/site-packages/'
-        real = [f for f in tb if os.path.abspath(f.filename).startswith(os.path.abspath(REPO) + os.sep)]
-        if not CURRENT or not real or not (os.path.abspath(inner).startswith(os.path.abspath(REPO) + os.sep) or site_pkgs in inner):
+        root = os.path.abspath(REPO) + os.sep
+        here = os.path.dirname(os.path.abspath(__file__)) + os.sep
+        idx_real = [i for i, f in enumerate(tb) if os.path.abspath(f.filename).startswith(root)]
+        idx_harness = [i for i, f in enumerate(tb) if os.path.abspath(f.filename).startswith(here)]
+        real = [tb[i] for i in idx_real]
+        # raised by (or below) the repository code: the last repository frame comes after the last harness frame
+        if not CURRENT or not idx_real or (idx_harness and idx_harness[-1] > idx_real[-1]):
             raise
         h = CURRENT[-1]
         fr = real[-1]
